@@ -241,7 +241,8 @@ func mergeToSequence(c any, o any, _ tree.Path) (any, error) {
 func convertIntoSequence(value any) []any {
 	switch v := value.(type) {
 	case map[string]any:
-		var seq []any
+		// an empty mapping is an empty sequence, not a nil one (nil is rendered as null and rejected by the schema)
+		seq := make([]any, 0, len(v))
 		for k, val := range v {
 			if val == nil {
 				seq = append(seq, k)
